@@ -174,3 +174,13 @@ def run(ck):
             lo = st["rv"]["fields"][0].get("k", {}).get("v")
             lb = common.lower_bound(cl, st["rv"]["fields"][1])
             ck.verdict(lo == 0 and lb >= 1, "4", "T14-interval", cl, "batch-bound>=1", "the per-dispatch batch bound is at least %d for every capacity" % lb, "the per-dispatch batch bound can be zero (lower bound %s): the drain loop may not run at all, so an empty queue is never observed, nothing is ever delivered and the source re-pings itself on every dispatch (spin)" % lb, site=cl.where(i))
+
+    # ---- clause 5: shared necessary conditions ---------------------------------------------------------------
+    from props import C04, C17
+
+    common.dispatch_infra(ck, "5")
+    common.ping_infra(ck, "5")
+    common.import_results(ck, C04, "1", None, "5")
+    if ck.has("futures-io") or True:
+        common.import_results(ck, C17, "2", "register_waker", "5")
+        common.import_results(ck, C17, "2", "IoLoopInner", "5")
